@@ -41,8 +41,8 @@ def P(name, nodes, inp, out, runs=None, tags=(), **extra):  # noqa: N802
     return normalise(prog)
 
 
-def R(plan=None, recreq=None, inp=None, recfalsy=()):  # noqa: N802
-    return dict(input=inp or {'x': 'tokA'}, plan=plan or {}, recreq=recreq or {}, recfalsy=list(recfalsy))
+def R(plan=None, recreq=None, inp=None, recfalsy=(), plan_it=None):  # noqa: N802
+    return dict(input=inp or {'x': 'tokA'}, plan=plan or {}, recreq=recreq or {}, recfalsy=list(recfalsy), plan_it=plan_it or {})
 
 
 def variants(prog, runs_list, suffixes=None):
@@ -61,6 +61,7 @@ def normalise_run(r):
     r.setdefault('plan', {})
     r.setdefault('recreq', {})
     r.setdefault('recfalsy', [])
+    r.setdefault('plan_it', {})
     return r
 
 
@@ -220,6 +221,15 @@ def switch_programs():
              N('W', SW('p1', 'S', [('l1', 'C1'), ('l2', 'C2')], name='sw1')), N('O', I('p1', 'W'), I('p2', 'C1'))]
     p = P('switch_case_later_consumer', nodes, 'A', 'O', tags=['switch', 'shared'])
     out += variants(p, [[R({'S': ['label:l1']})], [R({'S': ['label:l2']})]], ['l1', 'l2'])
+    # two switches select the same case, and that case itself consumes a nested switch: the second switch finds the
+    # case already computed, but its sub-pipeline is not empty (synthetic nodes are never "processed")
+    nodes = [N('A'), N('S1', I('p1', 'A')), N('S2', I('p1', 'A')), N('SI', I('p1', 'A')), N('J1', I('p1', 'A')), N('J2', I('p1', 'A')),
+             N('C', SW('p1', 'SI', [('a', 'J1'), ('b', 'J2')], name='inner')), N('E', I('p1', 'A')),
+             N('U', SW('p1', 'S1', [('l1', 'C'), ('l2', 'E')], name='first')), N('Q1', I('p1', 'U')),
+             N('V', SW('p1', 'S2', [('l1', 'C'), ('l2', 'E')], name='second'), I('p2', 'Q1')), N('O', I('p1', 'U'), I('p2', 'V'))]
+    p = P('switch_shared_case_nested', nodes, 'A', 'O', tags=['switch', 'shared'])
+    out += variants(p, [[R({'S1': ['label:l1'], 'S2': ['label:l1'], 'SI': ['label:a']})],
+                        [R({'S1': ['label:l1'], 'S2': ['label:l2'], 'SI': ['label:b']})]], ['same', 'diff'])
     # the switch node returns None / a falsy value: no such label
     p = P('switch_none_label', [N('A'), N('S', I('p1', 'A')), N('C1', I('p1', 'A')), N('C2', I('p1', 'A')),
                                 N('O', SW('p1', 'S', [('l1', 'C1'), ('l2', 'C2')], name='sw1'))], 'A', 'O', tags=['switch'])
@@ -402,6 +412,9 @@ def rec_programs():
     p = P('rec_switch_inside', nodes, 'A', 'O', tags=['rec', 'switch'])
     out += variants(p, [[R({'SWN': ['label:l1']}, recreq={'D': 1})], [R({'SWN': ['label:l2']}, recreq={'D': 2})]],
                     ['l1_it1', 'l2_it2'])
+    # the label changes between iterations: the consumer must get the case selected in THIS iteration
+    out += variants(P('rec_switch_label_changes', nodes, 'A', 'O', tags=['rec', 'switch', 'D9']),
+                    [[R(recreq={'D': 1}, plan_it={'SWN': [['label:l1'], ['label:l2']]})]], ['l1_then_l2'])
     out += variants(P('rec_switch_inside_fail', nodes, 'A', 'O', tags=['rec', 'switch', 'D9']),
                     [[R({'SWN': ['label:l1'], 'C2': ['raise:E1']}, recreq={'D': 1})]], ['l1_c2fails'])
     # recurrent destination inside a one-of candidate (test_oneof_with_recurrent_subgraph)
